@@ -981,3 +981,314 @@ Proof.
   exists (EName 1), (mkenv [(1%nat, VList [VBool true; VInt 1])]). split; [reflexivity|].
   intros w. split; reflexivity.
 Qed.
+
+(* ------------------------------------------------------------------------------------------- *)
+(* frame lemma: an expression that never reads `_` does not depend on the binding of `_` *)
+
+Definition agree_off (en1 en2 : env) : Prop := forall x, x <> underscore -> en1 x = en2 x.
+
+Definition frame_at (w : world) (e : expr) : Prop :=
+  reads_us e = false -> forall en1 en2, agree_off en1 en2 -> forall tr, eval w e en1 tr = eval w e en2 tr.
+
+(* the same for the children of the wrapper nodes, which the list walkers evaluate directly *)
+Definition frame_sub (w : world) (e : expr) : Prop :=
+  match e with
+  | EStar a | EKw _ a | EDStar a | EOp _ a => frame_at w a
+  | EKV k v => frame_at w k /\ frame_at w v
+  | _ => True
+  end.
+
+Definition frame_P (w : world) (e : expr) : Prop := frame_at w e /\ frame_sub w e.
+
+Lemma agree_upd : forall en1 en2 x v, agree_off en1 en2 -> agree_off (upd en1 x v) (upd en2 x v).
+Proof. intros en1 en2 x v H y Hy. unfold upd. destruct (Nat.eqb y x); [reflexivity | apply H, Hy]. Qed.
+
+Lemma agree_bind_names : forall xs vs en1 en2, agree_off en1 en2 ->
+  match bind_names xs vs en1, bind_names xs vs en2 with
+  | Some a, Some b => agree_off a b
+  | None, None => True
+  | _, _ => False
+  end.
+Proof.
+  induction xs as [|x xs IH]; intros [|v vs] en1 en2 H; cbn; try exact I; [assumption|].
+  apply IH. apply agree_upd. assumption.
+Qed.
+
+Lemma agree_bind : forall t v en1 en2, agree_off en1 en2 ->
+  match bind t v en1, bind t v en2 with
+  | Some a, Some b => agree_off a b
+  | None, None => True
+  | _, _ => False
+  end.
+Proof.
+  intros [x|xs] v en1 en2 H; cbn.
+  - apply agree_upd. assumption.
+  - destruct (items_of v); [apply agree_bind_names; assumption | exact I].
+Qed.
+
+Section Frame.
+  Variable w : world.
+
+  Lemma elts_frame : forall l, Forall (frame_P w) l -> existsb reads_us l = false ->
+    forall en1 en2, agree_off en1 en2 -> forall tr,
+      eval_elts (eval w) en1 l tr = eval_elts (eval w) en2 l tr.
+  Proof.
+    induction 1 as [|a l [Ha Hs] Hl IH]; intros Hr en1 en2 Hag tr; [reflexivity|].
+    cbn in Hr. apply orb_false_iff in Hr as [Hra Hrl].
+    assert (Hgen : match eval w a en1 tr with
+                   | Some (v, tr1) => match eval_elts (eval w) en1 l tr1 with
+                                      | Some (rest, tr2) => Some (v :: rest, tr2) | None => None end
+                   | None => None end =
+                   match eval w a en2 tr with
+                   | Some (v, tr1) => match eval_elts (eval w) en2 l tr1 with
+                                      | Some (rest, tr2) => Some (v :: rest, tr2) | None => None end
+                   | None => None end).
+    { rewrite (Ha Hra en1 en2 Hag tr). destruct (eval w a en2 tr) as [[v tr1]|]; [|reflexivity].
+      rewrite (IH Hrl en1 en2 Hag tr1). reflexivity. }
+    destruct a; try exact Hgen.
+    cbn [eval_elts]. cbn [frame_sub] in Hs. cbn [reads_us] in Hra. rewrite (Hs Hra en1 en2 Hag tr).
+    destruct (eval w a en2 tr) as [[v tr1]|]; [|reflexivity]. destruct (items_of v); [|reflexivity].
+    rewrite (IH Hrl en1 en2 Hag tr1). reflexivity.
+  Qed.
+
+  Lemma args_frame : forall l, Forall (frame_P w) l -> existsb reads_us l = false ->
+    forall en1 en2, agree_off en1 en2 -> forall tr,
+      eval_args (eval w) en1 l tr = eval_args (eval w) en2 l tr.
+  Proof.
+    induction 1 as [|a l [Ha Hs] Hl IH]; intros Hr en1 en2 Hag tr; [reflexivity|].
+    cbn in Hr. apply orb_false_iff in Hr as [Hra Hrl].
+    assert (Hgen : match eval w a en1 tr with
+                   | Some (v, tr1) => match eval_args (eval w) en1 l tr1 with
+                                      | Some (rest, tr2) => Some ((None, v) :: rest, tr2) | None => None end
+                   | None => None end =
+                   match eval w a en2 tr with
+                   | Some (v, tr1) => match eval_args (eval w) en2 l tr1 with
+                                      | Some (rest, tr2) => Some ((None, v) :: rest, tr2) | None => None end
+                   | None => None end).
+    { rewrite (Ha Hra en1 en2 Hag tr). destruct (eval w a en2 tr) as [[v tr1]|]; [|reflexivity].
+      rewrite (IH Hrl en1 en2 Hag tr1). reflexivity. }
+    destruct a; try exact Hgen; cbn [eval_args]; cbn [frame_sub] in Hs; cbn [reads_us] in Hra;
+      rewrite (Hs Hra en1 en2 Hag tr); destruct (eval w a en2 tr) as [[v tr1]|]; try reflexivity.
+    - destruct (items_of v); [|reflexivity]. rewrite (IH Hrl en1 en2 Hag tr1). reflexivity.
+    - rewrite (IH Hrl en1 en2 Hag tr1). reflexivity.
+  Qed.
+
+  Lemma items_frame : forall l, Forall (frame_P w) l -> existsb reads_us l = false ->
+    forall en1 en2, agree_off en1 en2 -> forall d tr,
+      eval_items (eval w) en1 l d tr = eval_items (eval w) en2 l d tr.
+  Proof.
+    induction 1 as [|a l [Ha Hs] Hl IH]; intros Hr en1 en2 Hag d tr; [reflexivity|].
+    cbn in Hr. apply orb_false_iff in Hr as [Hra Hrl].
+    destruct a; try reflexivity; cbn [eval_items]; cbn [frame_sub] in Hs; cbn [reads_us] in Hra.
+    - apply orb_false_iff in Hra as [Hk Hv]. destruct Hs as [Fk Fv].
+      rewrite (Fk Hk en1 en2 Hag tr). destruct (eval w a1 en2 tr) as [[kv tr1]|]; [|reflexivity].
+      rewrite (Fv Hv en1 en2 Hag tr1). destruct (eval w a2 en2 tr1) as [[vv tr2]|]; [|reflexivity].
+      destruct (hashable kv); [apply IH; assumption | reflexivity].
+    - rewrite (Hs Hra en1 en2 Hag tr). destruct (eval w a en2 tr) as [[[] tr1]|]; try reflexivity.
+      apply IH; assumption.
+  Qed.
+
+  Lemma chain_frame : forall l, Forall (frame_P w) l -> existsb reads_us l = false ->
+    forall en1 en2, agree_off en1 en2 -> forall lv tr,
+      eval_chain (eval w) w en1 l lv tr = eval_chain (eval w) w en2 l lv tr.
+  Proof.
+    induction 1 as [|a l [Ha Hs] Hl IH]; intros Hr en1 en2 Hag lv tr; [reflexivity|].
+    cbn in Hr. apply orb_false_iff in Hr as [Hra Hrl].
+    destruct a; try reflexivity. cbn [eval_chain]. cbn [frame_sub] in Hs. cbn [reads_us] in Hra.
+    rewrite (Hs Hra en1 en2 Hag tr). destruct (eval w a en2 tr) as [[rv tr1]|]; [|reflexivity].
+    destruct (cmp_sem w o lv rv); [|reflexivity]. destruct l; [reflexivity|].
+    destruct (truthy v); [apply IH; assumption | reflexivity].
+  Qed.
+
+  Lemma conds_frame : forall l, Forall (frame_P w) l -> existsb reads_us l = false ->
+    forall en1 en2, agree_off en1 en2 -> forall tr,
+      eval_conds (eval w) en1 l tr = eval_conds (eval w) en2 l tr.
+  Proof.
+    induction 1 as [|a l [Ha Hs] Hl IH]; intros Hr en1 en2 Hag tr; [reflexivity|].
+    cbn in Hr. apply orb_false_iff in Hr as [Hra Hrl]. cbn [eval_conds].
+    rewrite (Ha Hra en1 en2 Hag tr). destruct (eval w a en2 tr) as [[cv tr1]|]; [|reflexivity].
+    destruct (truthy cv); [apply IH; assumption | reflexivity].
+  Qed.
+
+  (* the comprehension loop under two targets / environments that agree off `_` after binding *)
+  Lemma loop_frame : forall k elt dval ifs,
+    frame_at w elt -> frame_at w dval -> Forall (frame_P w) ifs ->
+    reads_us elt = false -> reads_us dval = false -> existsb reads_us ifs = false ->
+    forall t1 t2 en1 en2 xs1 xs2,
+      Forall2 (fun x1 x2 => match bind t1 x1 en1, bind t2 x2 en2 with
+                            | Some a, Some b => agree_off a b
+                            | None, None => True
+                            | _, _ => False
+                            end) xs1 xs2 ->
+      forall acc dacc tr,
+        comp_loop (eval w) k elt dval t1 ifs en1 xs1 acc dacc tr =
+        comp_loop (eval w) k elt dval t2 ifs en2 xs2 acc dacc tr.
+  Proof.
+    intros k elt dval ifs Fe Fd Fi Re Rd Ri t1 t2 en1 en2 xs1 xs2 H2.
+    induction H2 as [|x1 x2 xs1 xs2 Hb Hrest IH]; intros acc dacc tr; [reflexivity|].
+    cbn [comp_loop]. destruct (bind t1 x1 en1) as [a|], (bind t2 x2 en2) as [b|]; try contradiction; [|reflexivity].
+    rewrite (conds_frame ifs Fi Ri a b Hb tr).
+    destruct (eval_conds (eval w) b ifs tr) as [[[] tr1]|]; [|apply IH|reflexivity].
+    rewrite (Fe Re a b Hb tr1). destruct (eval w elt b tr1) as [[v tr2]|]; [|reflexivity].
+    destruct k; try apply IH.
+    rewrite (Fd Rd a b Hb tr2). destruct (eval w dval b tr2) as [[dv tr3]|]; [|reflexivity].
+    destruct (hashable v); [apply IH | reflexivity].
+  Qed.
+
+  Lemma Forall2_same_bind : forall t en1 en2 xs, agree_off en1 en2 ->
+    Forall2 (fun x1 x2 => match bind t x1 en1, bind t x2 en2 with
+                          | Some a, Some b => agree_off a b
+                          | None, None => True
+                          | _, _ => False
+                          end) xs xs.
+  Proof. intros. induction xs; constructor; [apply agree_bind; assumption | assumption]. Qed.
+
+  Lemma frame_all : forall e, frame_P w e.
+  Proof.
+    induction e using expr_ind'; split; try exact I; try (intros Hr en1 en2 Hag tr).
+    - reflexivity.
+    - cbn in Hr. cbn. apply Nat.eqb_neq in Hr. rewrite (Hag x Hr). reflexivity.
+    - cbn [eval]. rewrite (elts_frame _ H Hr _ _ Hag). reflexivity.
+    - cbn [eval]. rewrite (args_frame _ H Hr _ _ Hag). reflexivity.
+    - cbn [eval]. rewrite (elts_frame _ H Hr _ _ Hag). reflexivity.
+    - cbn [eval]. rewrite (items_frame _ H Hr _ _ Hag). reflexivity.
+    - cbn in Hr. apply orb_false_iff in Hr as [Hl Hrest]. rewrite !eval_ECmp.
+      destruct IHe as [Fe _]. rewrite (Fe Hl _ _ Hag). destruct (eval w e en2 tr) as [[lv tr0]|]; [|reflexivity].
+      apply chain_frame; assumption.
+    - cbn in Hr. cbn [eval]. destruct IHe as [Fe _]. rewrite (Fe Hr _ _ Hag). reflexivity.
+    - cbn in Hr. apply orb_false_iff in Hr as [Hr Hifs]. apply orb_false_iff in Hr as [Hr Hit].
+      apply orb_false_iff in Hr as [Helt Hdval]. rewrite !eval_EComp.
+      destruct IHe1 as [F1 _], IHe2 as [F2 _], IHe3 as [F3 _].
+      rewrite (F3 Hit _ _ Hag). destruct (eval w e3 en2 tr) as [[itv tr0]|]; [|reflexivity].
+      destruct (items_of itv) as [xs|]; [|reflexivity].
+      apply loop_frame; try assumption. apply Forall2_same_bind. assumption.
+    - reflexivity.
+    - destruct IHe as [Fe _]. apply Fe; assumption.
+    - reflexivity.
+    - destruct IHe as [Fe _]. apply Fe; assumption.
+    - reflexivity.
+    - destruct IHe1 as [F1 _], IHe2 as [F2 _]. split; assumption.
+    - reflexivity.
+    - destruct IHe as [Fe _]. apply Fe; assumption.
+    - reflexivity.
+    - destruct IHe as [Fe _]. apply Fe; assumption.
+  Qed.
+End Frame.
+
+Lemma frame : forall w e, reads_us e = false ->
+  forall en1 en2, agree_off en1 en2 -> forall tr, eval w e en1 tr = eval w e en2 tr.
+Proof. intros w e. apply frame_all. Qed.
+
+(* ------------------------------------------------------------------------------------------- *)
+(* fixes.redundant_enumerate (repaired) *)
+
+Lemma enum_bind_rel : forall x en l i,
+  Forall2 (fun x1 x2 => match bind (TTup [underscore; x]) x1 en, bind (TName x) x2 en with
+                        | Some a, Some b => agree_off a b
+                        | None, None => True
+                        | _, _ => False
+                        end) (enum_from i l) l.
+Proof.
+  intros x en. induction l as [|y l IH]; intros i; cbn [enum_from]; constructor; [|apply IH].
+  cbn. intros z Hz. unfold upd. destruct (Nat.eqb z x); [reflexivity|].
+  destruct (Nat.eqb z underscore) eqn:E; [apply Nat.eqb_eq in E; contradiction | reflexivity].
+Qed.
+
+(* `for _, x in enumerate(it)` -> `for x in it` in a comprehension of a file that never reads `_`:
+   same value, same calls (the hypothesis on EStar excludes a starred argument of enumerate, whose rewrite does not parse) *)
+Theorem enumerate_sound : forall w e e',
+  rw_enumerate e e = Some e' ->
+  (match e with EComp _ _ _ _ (EBi _ [it]) _ => is_star it = false | _ => True end) ->
+  forall en tr, eval w e' en tr = eval w e en tr.
+Proof.
+  intros w e e' Hr Hstar en tr. unfold rw_enumerate in Hr. destruct (reads_us e) eqn:Hus; [discriminate|].
+  destruct e; try discriminate. destruct t as [|[|u [|x [|? ?]]]]; try discriminate.
+  destruct e3; try discriminate. destruct b; try discriminate. destruct args as [|it [|? ?]]; try discriminate.
+  destruct (Nat.eqb u underscore && negb (is_kw it)) eqn:E; [|discriminate]. injection Hr as <-.
+  apply andb_true_iff in E as [Hu Hkw]. apply Nat.eqb_eq in Hu. subst u.
+  assert (Hp : plain it = true) by (unfold plain; rewrite Hstar, Hkw; reflexivity).
+  cbn [reads_us existsb] in Hus. repeat (apply orb_false_iff in Hus as [Hus ?]).
+  rewrite !eval_EComp, eval_EBi, (eval_args_plain_cons _ _ _ _ _ Hp).
+  destruct (eval w it en tr) as [[v tr1]|]; [|reflexivity]. cbn [eval_args fst snd split_kws bapply].
+  destruct (items_of v) as [l|]; [|reflexivity]. cbn [option_map items_of].
+  symmetry. apply loop_frame; try assumption; try apply frame_all.
+  - clear. induction ifs; constructor; [apply frame_all | assumption].
+  - apply enum_bind_rel.
+Qed.
+
+Example enumerate_example :
+  rw_enumerate (EComp CList (ECall 2 [EName 2]) (EConst ANone) (TTup [0; 2]%nat) (EBi BEnumerate [EName 3]) [])
+               (EComp CList (ECall 2 [EName 2]) (EConst ANone) (TTup [0; 2]%nat) (EBi BEnumerate [EName 3]) [])
+  = Some (EComp CList (ECall 2 [EName 2]) (EConst ANone) (TName 2) (EName 3) []).
+Proof. reflexivity. Qed.
+
+(* ------------------------------------------------------------------------------------------- *)
+(* fixes.unused_zip_args (repaired): wrong whenever the dropped argument is the shortest *)
+
+Theorem zip_refuted :
+  exists e e' en, rw_zip e e = Some e' /\
+    forall w, eval w e en [] = Some (VList [], []) /\ eval w e' en [] = Some (VList [VInt 1], []).
+Proof.
+  exists (EComp CList (EName 2) (EConst ANone) (TTup [0; 2]%nat) (EBi BZip [EName 3; EName 4]) []),
+         (EComp CList (EName 2) (EConst ANone) (TName 2) (EName 4) []),
+         (mkenv [(3%nat, VList []); (4%nat, VList [VInt 1])]).
+  split; [reflexivity|]. intros w; split; reflexivity.
+Qed.
+
+Definition same_len (va vb : val) : bool :=
+  match items_of va, items_of vb with
+  | Some la, Some lb => Nat.eqb (length la) (length lb)
+  | _, _ => false
+  end.
+
+Lemma zip2_bind_rel : forall x en la lb, length la = length lb ->
+  Forall2 (fun x1 x2 => match bind (TTup [underscore; x]) x1 en, bind (TName x) x2 en with
+                        | Some a, Some b => agree_off a b
+                        | None, None => True
+                        | _, _ => False
+                        end) (map VTuple (zip_cons la (map (fun y => [y]) lb))) lb.
+Proof.
+  intros x en. induction la as [|a la IH]; intros [|b lb] Hl; try discriminate; cbn; constructor.
+  - cbn. intros z Hz. unfold upd. destruct (Nat.eqb z x); [reflexivity|].
+    destruct (Nat.eqb z underscore) eqn:E; [apply Nat.eqb_eq in E; contradiction | reflexivity].
+  - apply IH. cbn in Hl. lia.
+Qed.
+
+Lemma simple_eval : forall w a en tr v tr', simple a = true -> eval w a en tr = Some (v, tr') -> tr' = tr.
+Proof.
+  intros w a en tr v tr' Hs He. destruct a; try discriminate; cbn in He.
+  - injection He as _ <-. reflexivity.
+  - destruct (en x); [|discriminate]. injection He as _ <-. reflexivity.
+Qed.
+
+(* `for _, x in zip(a, b)` -> `for x in b`: right when a and b have the same number of items *)
+Theorem zip2_partial : forall w k elt dval x a b ifs,
+  let e := EComp k elt dval (TTup [underscore; x]) (EBi BZip [a; b]) ifs in
+  let e' := EComp k elt dval (TName x) b ifs in
+  reads_us e = false -> simple a = true -> plain b = true -> Nat.eqb x underscore = false ->
+  rw_zip e e = Some e' /\
+  forall en tr va tra vb tr1,
+    eval w a en tr = Some (va, tra) -> eval w b en tr = Some (vb, tr1) -> same_len va vb = true ->
+    eval w e' en tr = eval w e en tr.
+Proof.
+  intros w k elt dval x a b ifs e e' Hus Ha Hb Hx. split.
+  - unfold rw_zip. fold e. rewrite Hus. unfold e. cbn [is_zip forallb andb zip_keep].
+    assert (Hpa : plain a = true) by (destruct a; try discriminate; reflexivity).
+    rewrite Hpa, Hb, Ha, Hx. cbn. reflexivity.
+  - intros en tr va tra vb tr1 Eva Evb Hlen.
+    assert (Hpa : plain a = true) by (destruct a; try discriminate; reflexivity).
+    pose proof (simple_eval _ _ _ _ _ _ Ha Eva) as ->.
+    unfold e, e'. cbn [reads_us existsb] in Hus. repeat (apply orb_false_iff in Hus as [Hus ?]).
+    rewrite !eval_EComp, eval_EBi, (eval_args_plain_cons _ _ _ _ _ Hpa), Eva,
+      (eval_args_plain_cons _ _ _ _ _ Hb), Evb.
+    cbn [eval_args fst snd split_kws bapply all_items]. unfold same_len in Hlen.
+    destruct (items_of va) as [la|]; [|discriminate]. destruct (items_of vb) as [lb|]; [|discriminate].
+    cbn [option_map items_of zipn]. apply Nat.eqb_eq in Hlen.
+    symmetry. apply loop_frame; try assumption; try apply frame_all.
+    + clear. induction ifs; constructor; [apply frame_all | assumption].
+    + apply zip2_bind_rel. assumption.
+Qed.
+
+Example zip2_partial_example :
+  same_len (VList [VInt 1; VInt 2]) (VTuple [VStr 1; VNone]) = true.
+Proof. reflexivity. Qed.
